@@ -35,7 +35,8 @@ VARIANTS = 24
 RULE = (
     "AHBs are generated from seed // 24; seed % 24 enumerates the fault positions of that AHB in document order (every "
     "segment group, segment, free-text element and value-pool entry; one planted invalid expression each, family drawn "
-    "from 8 invalid-expression families incl. an invalid part among several modal-mark parts), indices beyond the "
+    "from 10 invalid-expression families incl. an invalid part among several modal-mark parts, an invalid composition "
+    "hidden inside a package, a package as operand), indices beyond the "
     "number of positions plant 2-3 faults at sampled positions; each case runs once under a PRF-chosen latency profile. "
     "non-trivial iff at least one planted node was actually reached (reported, i.e. not pruned below a forbidden "
     "parent; for value-pool entries: the pool has several entries and was evaluated); distinct = distinct "
@@ -81,10 +82,24 @@ def _alone(scenario, ahb, rid="r0"):
 
 
 # --------------------------------------------------------------------------------------------------- generation
-def _gen_planted_expression(rnd, universe):
-    rc, hints, fcs, _ = universe
+def _gen_planted_expression(rnd, universe, cer):
+    rc, hints, fcs, package_kinds = universe
     ast, family = gen_invalid(rnd, rc, hints, fcs)
     text = render(ast, rnd, rnd.choice(["plain", "symbol"]))
+    roll = rnd.random()
+    if roll < 0.12:
+        # the invalid composition sits inside a package: the node's own expression looks harmless
+        key = f"{880 + len(cer['packages'])}P"
+        cer["packages"][key] = text
+        family = "invalid_inside_package:" + family
+        if rnd.random() < 0.5:
+            text = f"[{key}]"
+        else:
+            text = f"[{rnd.choice(rc)}] U [{key}{rnd.choice(['', '1..3'])}]"
+    elif roll < 0.22 and package_kinds and hints:
+        # an operand of the invalid composition is a package (which expands to requirement constraints)
+        text = f"[{rnd.choice(sorted(package_kinds))}] {rnd.choice(['O', 'X'])} [{rnd.choice(hints)}]"
+        family = "package_or_hint"
     roll = rnd.random()
     indicator = rnd.choice(["Muss", "Soll", "Kann", "M", "K"])
     if roll < 0.55:
@@ -117,7 +132,7 @@ def generate(seed, tier="quick"):
         chosen = sorted(rnd.sample(positions, count), key=positions.index)
     planted = []
     for position in chosen:
-        expression, family = _gen_planted_expression(rnd, universe)
+        expression, family = _gen_planted_expression(rnd, universe, cer)
         _holder(ahb, position)["e"] = expression
         planted.append({"at": position, "expr": expression, "family": family})
     profile = rnd.choice([p for p in PROFILES if p != "zero"] * 3 + ["zero"])
@@ -310,7 +325,7 @@ def _judge(request, outcome, reference, reasons, verdict):
     for plant in planted:
         kind = kinds[plant["at"][0]] + ("-entry" if plant["at"][1] is not None else "")
         _bump(verdict, f"position_{kind}")
-        _bump(verdict, f"family_{plant['family'].split('+')[0]}")
+        _bump(verdict, f"family_{plant['family'].split('+')[0].split(':')[0]}")
         if "+" in plant["family"]:
             _bump(verdict, "family_multi_part")
     verdict["faults"]["F5_invalid_expression"] = verdict["faults"].get("F5_invalid_expression", 0) + reached
